@@ -144,8 +144,12 @@ def run(ctx, rep):
         # ---- C20.3 inventory -------------------------------------------------------
         items = fx.items["proguard"]
         for s in items["statics"]:
+            import effects as E_
             allowed = ALLOWED_STATICS.get(s["path"])
             inner_of_allowed = s["exp"] and any(k in s["path"].replace("::<", "<") for k in ALLOWED_STATICS)
+            if not (allowed or inner_of_allowed) and not s["mut"] and not s["thread_local"] and not s["freeze"]:
+                # role instead of name: a write-once constant (pure initialiser, no interior mutability in the value)
+                allowed = E_.write_once_static(fx, "proguard::" + s["path"] if not s["path"].startswith("proguard::") else s["path"], s["ty"])
             bad = s["mut"] or s["thread_local"] or (not s["freeze"] and not (allowed or inner_of_allowed))
             rep.check("C20.3" + sfx, "C20.3/static/%s" % s["path"], not bad, loc=F.short_file(s["sp"]),
                       found="static %s: %s mut=%s freeze=%s tls=%s" % (s["path"], s["ty"], s["mut"], s["freeze"], s["thread_local"]),
